@@ -103,6 +103,9 @@ let enc_doc (d : doc) : string =
   String.trim (Buffer.contents b)
 let ascii_space c = let i = int_of_n c in (i >= 9 && i <= 13) || (i >= 28 && i <= 32)
 
+let pr_warn (w : pwarn) =
+  Printf.sprintf "%d:%d:%d:%s:%s:%s:%s" (int_of_n w.wsub) (int_of_n w.wline) (int_of_n w.wcol) (tok_of_str w.wa) (tok_of_str w.wb)
+    (String.concat "/" (List.map tok_of_str w.wparts)) (String.concat "/" (List.map (fun n -> string_of_int (int_of_n n)) w.wnums))
 let handle l =
   match words l with
   | "lex" :: len :: cls :: pairs -> pr_lexres (tokenize_tbl (tok_bool len) (parse_cls cls) (List.map parse_pair pairs))
@@ -111,6 +114,17 @@ let handle l =
   | ["safe"; s] -> bool_tok (escape_safe (str_of_tok s))
   | ["esco"; s] -> (match escape_opt (str_of_tok s) with Some r -> tok_of_str r | None -> "NONE")
   | ["unesco"; s] -> (match unescape_opt (str_of_tok s) with Some r -> tok_of_str r | None -> "NONE")
+  | "parse" :: strict :: cls :: nums :: holos :: pairs ->
+      let nums = if nums = "-" then [] else List.map (fun e -> match String.split_on_char '/' e with
+          | [r; k; c] -> (str_of_tok r, ((k = "f"), str_of_tok c)) | _ -> failwith "num") (String.split_on_char ',' nums) in
+      let holos = if holos = "-" then [] else List.map str_of_tok (String.split_on_char ',' holos) in
+      (match parse_tbl (tok_bool strict) (parse_cls cls) nums holos (List.map parse_pair pairs) with
+       | PRDoc (d, reps, warns) ->
+           "DOC " ^ enc_doc d ^ " # " ^ String.concat ";" (List.map pr_rep reps) ^ " # " ^ String.concat ";" (List.map pr_warn warns)
+       | PRLexErr (c, l, k) -> Printf.sprintf "LEXERR %s %d %d" (tok_of_str c) (int_of_n l) (int_of_n k)
+       | PRParseErr (c, l, k) -> Printf.sprintf "PARSEERR %s %d %d" (tok_of_str c) (int_of_n l) (int_of_n k)
+       | PRFuel -> "FUEL"
+       | PROut w -> "OUT " ^ string_of_int (int_of_n w))
   | "emit" :: spc :: rest ->
       (* spc: extra (non-ASCII) whitespace code points of the frontmatter, '-' if none *)
       let extra = str_of_tok spc in
